@@ -32,6 +32,8 @@ pub struct Cfg {
     pub ans: u8,
     /// drop the arena on another thread at the end
     pub drop_on_thread: bool,
+    /// uniform sub-model: log2 of the one alignment used (C10 exactness)
+    pub aux: u8,
 }
 
 #[derive(Clone, Copy, Debug, PartialEq, Eq)]
@@ -52,6 +54,10 @@ pub enum Profile {
     AllocApi,
     /// C18(b): capacity probes at every state
     CapProbe,
+    /// layer A: every (size, align) at every finger offset of 64/192/448-byte chunks (C01, C04)
+    LayerA,
+    /// C10 exactness: uniform allocations only
+    Uniform,
 }
 
 pub struct ArenaModel {
@@ -215,6 +221,11 @@ impl ArenaModel {
                 }
                 Act::ThreadHop => world.do_thread_hop(),
                 Act::CapProbe => world.do_cap_probe(),
+                Act::UniTryWith { al, ok, fallible } => world.do_uni_try_with(al, ok, fallible, script),
+                Act::UniSliceFail { al, len, fail_at } => world.do_uni_slice_fail(al, len, fail_at, script),
+            }
+            if self.profile == Profile::Uniform {
+                world.check_exact(1usize << cfg.aux);
             }
             if !matches!(s.act, Act::SetLimit { .. }) {
                 last_pub_limit_blip = None;
@@ -228,6 +239,9 @@ impl ArenaModel {
                 break;
             }
         }
+        if self.profile == Profile::LayerA && world.live.len() >= 2 {
+            world.terminal = true;
+        }
         out.nreq_last = world.nreq_last;
         out.cov = world.cov;
         out.outcome = world.outcome;
@@ -235,7 +249,7 @@ impl ArenaModel {
         out.key = *world.keys.last().unwrap();
         if want_enabled && !world.terminal {
             let p = world.observe();
-            out.enabled = self.enabled(&world, &p, n);
+            out.enabled = self.enabled(&world, &p, n, cfg.aux);
         }
         // ---- every execution ends by dropping the arena (C03: drop at any point)
         world.judge = true;
@@ -250,7 +264,7 @@ impl ArenaModel {
     }
 
     /// State-dependent alphabet.
-    fn enabled<const M: usize>(&self, w: &World<M>, p: &Pub, depth: usize) -> Vec<Act> {
+    fn enabled<const M: usize>(&self, w: &World<M>, p: &Pub, depth: usize, w_cfg_aux: u8) -> Vec<Act> {
         let mut a: Vec<Act> = Vec::with_capacity(128);
         let cap = p.cap;
         let last = depth + 1 >= self.max_depth;
@@ -523,6 +537,55 @@ impl ArenaModel {
                 a.push(Act::Typed { m: TM::Alloc, ty: Ty::U64 });
                 a.push(Act::Reset { probe: false });
             }
+            Profile::LayerA => {
+                let m = M;
+                if w.live.is_empty() {
+                    if depth == 0 {
+                        a.push(Act::SetLimit { some: true, val: 64 });
+                        a.push(Act::SetLimit { some: true, val: 192 });
+                    }
+                    let chunk = match p.limit {
+                        Some(l) => l,
+                        None => 448,
+                    };
+                    let mut k = 0usize;
+                    while k * m <= chunk {
+                        let s = k * m;
+                        let keep = t || chunk < 448 || s <= 96 || s + 96 >= chunk || k % 7 == 0;
+                        if keep && s > 0 {
+                            a.push(Act::Layout { fallible: true, size: s, al: 0 });
+                        }
+                        k += 1;
+                    }
+                    // a zero-sized first request leaves the arena chunk-less: covered by depth 0 grid
+                    if depth == 0 {
+                        self.layer_a_grid(&mut a, cap, t);
+                    }
+                } else if w.live.len() == 1 {
+                    self.layer_a_grid(&mut a, cap, t);
+                }
+            }
+            Profile::Uniform => {
+                let al = w_cfg_aux;
+                let ua = 1usize << al;
+                for k in 1..=3usize {
+                    a.push(Act::Layout { fallible: true, size: k * ua, al });
+                }
+                if cap >= ua {
+                    // land exactly on / just across the chunk boundary
+                    a.push(Act::Layout { fallible: true, size: (cap / ua) * ua, al });
+                    a.push(Act::Layout { fallible: true, size: (cap / ua + 1) * ua, al });
+                }
+                for ok in [true, false] {
+                    a.push(Act::UniTryWith { al, ok, fallible: false });
+                    a.push(Act::UniTryWith { al, ok, fallible: true });
+                }
+                a.push(Act::UniSliceFail { al, len: 3, fail_at: 1 });
+                a.push(Act::UniSliceFail { al, len: 3, fail_at: 255 });
+                let big = (cap / ua + 2).min(250) as u8;
+                a.push(Act::UniSliceFail { al, len: big, fail_at: big - 1 });
+                a.push(Act::Reset { probe: false });
+            }
             Profile::CapProbe => {
                 lay(&mut a, true, &[0, 1, 3, 8, 17, cap, cap + 1, 449, 5000], &[0, 1, 3, 4, 6, 12]);
                 if cap > 0 {
@@ -537,6 +600,24 @@ impl ArenaModel {
         }
         a.dedup();
         a
+    }
+
+    fn layer_a_grid(&self, a: &mut Vec<Act>, cap: usize, t: bool) {
+        let mut sizes: Vec<usize> = (0..=(if t { 80 } else { 40 })).collect();
+        sizes.extend([cap.wrapping_sub(1), cap, cap + 1, 448, 449, 4032, 4033, 1 << 20, isize::MAX as usize - 4095, isize::MAX as usize - 15, isize::MAX as usize]);
+        sizes.retain(|s| *s <= isize::MAX as usize);
+        sizes.sort();
+        sizes.dedup();
+        for &s in &sizes {
+            for al in 0..=12u8 {
+                a.push(Act::Layout { fallible: true, size: s, al });
+            }
+        }
+        for m in ALL_TM {
+            for ty in ALL_TY {
+                a.push(Act::Typed { m, ty });
+            }
+        }
     }
 
     fn allocator_acts(&self, a: &mut Vec<Act>, nraw: usize, raw_sz: &dyn Fn(u8) -> Option<(usize, usize)>, cap: usize, t: bool) {
@@ -578,13 +659,32 @@ impl Model for ArenaModel {
 
     fn configs(&self) -> Vec<Cfg> {
         let mut v = Vec::new();
+        if self.profile == Profile::LayerA {
+            for &m in &self.min_aligns {
+                v.push(Cfg { m, ctor: Ctor::MinAlign, cap: 0, ans: 0, drop_on_thread: false, aux: 0 });
+            }
+            return v;
+        }
+        if self.profile == Profile::Uniform {
+            for &m in &self.min_aligns {
+                for al in 0..=4u8 {
+                    if (1usize << al) < m as usize {
+                        continue;
+                    }
+                    for (ctor, cap) in [(Ctor::MinAlign, 0usize), (Ctor::MinAlignCap, 1), (Ctor::MinAlignCap, 449)] {
+                        v.push(Cfg { m, ctor, cap, ans: 0, drop_on_thread: false, aux: al });
+                    }
+                }
+            }
+            return v;
+        }
         let caps: Vec<usize> = match self.profile {
             Profile::Ledger | Profile::Fallible => vec![1, 449, 4033],
             Profile::Reset | Profile::CapProbe => vec![1, 65, 449],
             _ => vec![1, 449],
         };
         for &m in &self.min_aligns {
-            let mk = |ctor, cap, ans: Answer| Cfg { m, ctor, cap, ans: ans.code(), drop_on_thread: false };
+            let mk = |ctor, cap, ans: Answer| Cfg { m, ctor, cap, ans: ans.code(), drop_on_thread: false, aux: 0 };
             if m == 1 {
                 v.push(mk(Ctor::New, 0, Answer::Default));
                 for &c in &caps {
